@@ -267,7 +267,7 @@ def _coded_array(shape, dtype):
 
 @st.composite
 def cases(draw):
-    spec = draw(S.dataset_spec(max_vars=3, max_extra=3, modes=("raw", "raw", "decoded", "dask")))
+    spec = draw(S.dataset_spec(max_vars=3, max_extra=3, modes=("raw", "raw", "decoded", "dask", "file")))
     lin_names = ["@default"] + draw(st.lists(
         st.sampled_from(["cell", "@grid0", "@kept", "index", "time", "index_0"]),
         max_size=2, unique=True))
